@@ -64,6 +64,12 @@ Theorem C13_transpose_tables_agree :
   mut_frame_transpose = imm_frame_transpose.
 Proof. exact transpose_tables_agree. Qed.
 
+From Peppi Require Proofs.ReaderTies.
+(* the reader model these theorems speak about is the one regenerated from the source on this run: one-shot read, every incremental
+   entry point, the event dispatch with the splitter, the Game Start wiring, the metadata reader (Proofs/ReaderTies.v reader_tied) *)
+Theorem C13_reader_is_the_source : ReaderTies.reader_tied.
+Proof. exact ReaderTies.reader_tied_holds. Qed.
+
 Print Assumptions C13_tables_identity.
 Print Assumptions C13_parsed_view_is_occurrence.
 Print Assumptions C13_view_in_range_iff.
@@ -72,3 +78,4 @@ Print Assumptions C13_row_view_immutable.
 Print Assumptions C13_frame_view_from_source.
 Print Assumptions C13_frame_view_mutable_from_source.
 Print Assumptions C13_transpose_tables_agree.
+Print Assumptions C13_reader_is_the_source.
